@@ -1262,6 +1262,17 @@ func init() {
 				for _, op := range []string{"Add", "Sub", "Mul"} {
 					for _, bm := range []int{0, 1} {
 						out = append(out, mkInst("vhC15Ops", map[string]interface{}{"shape": sh, "op": op, "bmasked": bm}, "shape", "op", "bmasked"))
+						// every generated element type of the masked kernels (rotating), both sides masked / one side, safe / unsafe
+						for di, dt := range []string{"int", "int8", "int32", "int64", "uint8", "uint16", "float32", "complex128"} {
+							if tier == "quick" && (di+len(sh)+bm+len(op))%2 != 0 {
+								continue
+							}
+							cfg := map[string]interface{}{"shape": sh, "op": op, "bmasked": bm, "dtype": dt, "mode": []string{"", "unsafe"}[di%2]}
+							if bm == 1 && di%3 == 0 {
+								cfg["amasked"] = -1
+							}
+							out = append(out, mkInst("vhC15Ops", cfg, "dtype", "shape", "op", "bmasked", "mode", "amasked"))
+						}
 					}
 				}
 			}
